@@ -165,63 +165,114 @@ def run(ctx) -> None:
     ctx.not_decided.append("garbage-collection timing itself; the argument is by invariant preservation, not by exploring histories")
 
 
+_TRACKERS = (("name", "_ALIAS_TRACKER"), ("name", "_alias"))
+_SWAP_CALLS = ("_promote", "_replace_column", "__setitem__")
+
+
+def _swap_events(it):
+    """[(event, object term, stored value term or None)] - everything that replaces an object's storage tuple, in program order"""
+    out = []
+    for e in it.events:
+        if e.kind == "store" and e.term[0] == "attr" and e.term[2] == "_underlying":
+            out.append((e, e.term[1], e.value))
+        elif e.kind == "call" and e.term[1] in (("attr", ("name", "object"), "__setattr__"), ("name", "setattr")) and len(e.term[2]) == 3 \
+                and e.term[2][1] == ("const", "str", "_underlying"):
+            out.append((e, e.term[2][0], e.term[2][2]))
+        elif e.kind == "call" and e.term[1][0] == "attr" and e.term[1][2] in _SWAP_CALLS:
+            out.append((e, e.term[1][1], None))
+    return out
+
+
+def _tracker_events(it, method: str):
+    return [e for e in it.events if e.kind == "call" and e.term[1][0] == "attr" and e.term[1][2] == method and e.term[1][1] in _TRACKERS]
+
+
+def _eval_event(it, t):
+    """the event at which term t (a call) was evaluated: terms keep their identity through copy propagation"""
+    for e in it.events:
+        if e.kind == "call" and e.term is t:
+            return e
+    same = [e for e in it.events if e.kind == "call" and e.term == t]
+    return same[-1] if same else None
+
+
+def _subset(a, b) -> bool:
+    from ..symx import flatten_conds
+    fb = flatten_conds(b)
+    return all(c in fb for c in flatten_conds(a))
+
+
+def _id_problem(it, arg, X, not_before: int, not_after: int, what: str) -> Optional[str]:
+    """arg must be id(X._underlying) READ between the two points of the event order (no swap of X in between)"""
+    from ..symx import show
+    und = ("attr", X, "_underlying")
+    if not (arg[0] == "call" and arg[1] == ("name", "id") and len(arg[2]) == 1 and arg[2][0] == und):
+        return f"{what} names `{show(arg, it)[:40]}`, not id({show(X, it)[:20]}._underlying)"
+    ev = _eval_event(it, arg)
+    if ev is None:
+        return None
+    for sw, obj, _ in _swap_events(it):
+        if obj == X and ev.seq < sw.seq < not_after and sw.seq > not_before:
+            return (f"{what} uses an identity read at line {getattr(ev.node, 'lineno', '?')}, but `{show(sw.term, it)[:50]}` (line "
+                    f"{getattr(sw.node, 'lineno', '?')}) replaces the storage before it is used: the identity is stale")
+    return None
+
+
 def _bracket(ctx) -> None:
+    """Every replacement of a registered object's storage is bracketed: unregister(obj, id(<storage being replaced>)) before it on
+    every path, register(obj, id(<storage just stored>)) after it on every path - on the symx event logs (helpers in line; the
+    event order and the identity of each id() read decide what 'current' means)."""
+    from ..sites2 import standalone_interps
+    from ..symx import show
+    from .c08 import _compatible
     prog = ctx.prog
     n_sites = 0
-    for q in sorted(TRACKER_CALLERS | {f.qualname for f, _, _ in _field_stores(prog, "_underlying")}):
-        if not prog.has_func(q):
-            continue
-        f = prog.func(q)
-        if f.name == "__init__":
+    for q, it in sorted(standalone_interps(prog).items()):
+        f = prog.functions.get(q)
+        if f is None or f.name == "__init__":
             continue     # first store of an object under construction: nothing registered yet (C15.b/c)
-        cfg = cfg_of(f)
-        unregs = tracker_calls(prog, f, "unregister")
-        regs = tracker_calls(prog, f, "register")
-        for k, (snode, obj, val) in enumerate(storage_store_nodes(prog, f), 1):
+        swaps = _swap_events(it)
+        stores = [(e, X, v) for e, X, v in swaps if v is not None]
+        if not stores:
+            continue
+        unregs, regs = _tracker_events(it, "unregister"), _tracker_events(it, "register")
+        for k, (s_, X, val) in enumerate(stores, 1):
             n_sites += 1
             problems = []
-            # ---- unregister before ----
-            cands = [(n, c) for n, c in unregs if cfg.dominates(n, snode) and len(c.args) == 2 and short(c.args[0]) == obj]
+            prev_swaps = [sw.seq for sw, obj, _ in swaps if obj == X and sw.seq < s_.seq]
+            lo = max(prev_swaps) if prev_swaps else -1
+            cands = [u for u in unregs if lo < u.seq < s_.seq and len(u.term[2]) == 2 and u.term[2][0] == X and u.loops == s_.loops
+                     and _subset(u.conds, s_.conds)]
             if not cands:
-                path = cfg.path_avoiding(cfg.entry, [snode], lambda m: any(m is n for n, c in unregs
-                                                                             if len(c.args) == 2 and short(c.args[0]) == obj))
-                problems.append("the swap is not preceded on every path by unregister(" + obj + ", ...)"
-                                + (f"; witness: {cfg.fmt_path(path[-4:])}" if path else ""))
+                problems.append(f"the swap is not preceded on every path by unregister({show(X, it)[:20]}, ...)")
             else:
-                un, uc = cands[-1]
-                r = _id_of_current_storage(prog, f, cfg, uc.args[1], un, obj, snode)
-                if r:
-                    problems.append(f"unregister at line {un.lineno} does not name the storage being replaced: {r} "
-                                    f"(the vector stays listed under a dead identity that a later tuple can receive)")
-                for i in cfg.nodes_between(un, snode):
-                    m = cfg.nodes[i]
-                    if m is not un and m is not snode and swap_event(prog, f, m, obj):
-                        problems.append(f"another storage swap (`{m.text()}`) lies between unregister and the store")
-            # ---- register after ----
-            rc = [(n, c) for n, c in regs if cfg.postdominates(n, snode) and len(c.args) == 2 and short(c.args[0]) == obj]
+                u = cands[-1]
+                r_ = _id_problem(it, u.term[2][1], X, -1, u.seq, f"unregister at line {getattr(u.node, 'lineno', '?')}")
+                if r_:
+                    problems.append(r_ + " (the vector stays listed under a dead identity that a later tuple can receive)")
+            nxt = [sw.seq for sw, obj, _ in swaps if obj == X and sw.seq > s_.seq]
+            hi = min(nxt) if nxt else 10 ** 9
+            rc = [r for r in regs if s_.seq < r.seq < hi and len(r.term[2]) == 2 and r.term[2][0] == X and r.loops == s_.loops
+                  and _subset(r.conds, s_.conds)]
             if not rc:
-                path = cfg.path_avoiding(snode, [cfg.exit], lambda m: any(m is n for n, c in regs
-                                                                          if len(c.args) == 2 and short(c.args[0]) == obj))
-                problems.append("the swap is not followed on every path to exit by register(" + obj + ", ...)"
-                                + (f"; witness: {cfg.fmt_path(path[:5])}" if path else ""))
+                problems.append(f"the swap is not followed on every path to exit by register({show(X, it)[:20]}, ...)")
             else:
-                rn, rcall = rc[0]
-                a = rcall.args[1]
-                ok = False
-                if isinstance(a, ast.Call) and isinstance(a.func, ast.Name) and a.func.id == "id" and len(a.args) == 1:
-                    x = a.args[0]
-                    if isinstance(x, ast.Attribute) and x.attr == "_underlying" and short(x.value) == obj:
-                        ok = True
-                    elif isinstance(x, ast.Name) and isinstance(val, ast.Name) and x.id == val.id:
-                        # same name as the stored value, not rebound in between
-                        defs_s = reaching_defs(cfg, x.id, snode)
-                        defs_r = reaching_defs(cfg, x.id, rn)
-                        ok = len(defs_s) == len(defs_r) and all(any(p is q2 for q2 in defs_r) for p in defs_s)
-                if not ok:
-                    problems.append(f"register at line {rn.lineno} uses `{short(a)}`, not the identity of the tuple just stored "
-                                    f"(`{short(val)}`)")
+                r = rc[0]
+                for e in it.events:
+                    if e.kind in ("return", "raise") and s_.seq < e.seq < r.seq and _compatible(e.conds, s_.conds):
+                        problems.append(f"`{e.kind} {show(e.term, it)[:30]}` can leave between the store and register")
+                a = r.term[2][1]
+                if a[0] == "call" and a[1] == ("name", "id") and len(a[2]) == 1 and a[2][0] == val:
+                    pass
+                else:
+                    und = ("attr", X, "_underlying")
+                    ok = a[0] == "call" and a[1] == ("name", "id") and len(a[2]) == 1 and a[2][0] == und
+                    ev = _eval_event(it, a) if ok else None
+                    if not ok or ev is None or ev.seq < s_.seq:
+                        problems.append(f"register at line {getattr(r.node, 'lineno', '?')} uses `{show(a, it)[:40]}`, not the identity of the "
+                                        f"tuple just stored (`{show(val, it)[:40]}`)")
             ctx.ob("a.bracket", f, f"swap:{k}", not problems,
-                   f"store {obj}._underlying = {short(val, 40)} bracketed by unregister(old)/register(new)", snode.ast,
+                   f"store {show(X, it)[:20]}._underlying = {show(val, it)[:40]} bracketed by unregister(old)/register(new)", s_.node,
                    message="; ".join(problems))
     if n_sites == 0:
         raise AnalysisError("no storage swap site found")
@@ -270,29 +321,37 @@ def _has_reinit_guard(init: FuncInfo) -> Tuple[bool, str]:
 
 
 def _register_last(ctx) -> None:
+    """Vector.__init__ on its symx log: one register(self, id(self._underlying)), read after the (last) store, on every path that
+    stores; nothing is stored after it."""
+    from ..sites2 import interp_of
+    from ..symx import show
     prog = ctx.prog
     f = prog.func("vector.Vector.__init__")
-    cfg = cfg_of(f)
-    regs = tracker_calls(prog, f, "register")
-    stores = storage_store_nodes(prog, f)
+    it = interp_of(prog, f)
+    SELF = ("param", f.params[0])
+    regs = _tracker_events(it, "register")
+    stores = [(e, X, v) for e, X, v in _swap_events(it) if v is not None and X == SELF]
     problems = []
     if len(regs) != 1:
         problems.append(f"{len(regs)} register calls in Vector.__init__, expected exactly one")
     else:
-        rn, rc = regs[0]
-        if not (len(rc.args) == 2 and short(rc.args[0]) == "self" and short(rc.args[1]) == "id(self._underlying)"):
-            problems.append(f"register is called as `{short(rc)}`, expected register(self, id(self._underlying))")
-        for sn, obj, val in stores:
-            if not cfg.postdominates(rn, sn):
-                problems.append(f"register does not follow the store at line {sn.lineno} on every path")
-            if cfg.can_reach(rn, sn):
-                problems.append(f"the storage can be stored (line {sn.lineno}) after registration")
+        r = regs[0]
+        und = ("attr", SELF, "_underlying")
+        if not (len(r.term[2]) == 2 and r.term[2][0] == SELF and r.term[2][1] == ("call", ("name", "id"), (und,), ())):
+            problems.append(f"register is called as `{show(r.term, it)[:60]}`, expected register(self, id(self._underlying))")
+        else:
+            ev = _eval_event(it, r.term[2][1])
+            for s_, X, v in stores:
+                if s_.seq > r.seq:
+                    problems.append(f"the storage can be stored (line {getattr(s_.node, 'lineno', '?')}) after registration")
+                elif not _subset(r.conds, s_.conds) or r.loops:
+                    problems.append(f"register does not follow the store at line {getattr(s_.node, 'lineno', '?')} on every path")
+                elif ev is not None and ev.seq < s_.seq:
+                    problems.append("register uses an identity read before the storage was stored")
     if not stores:
         problems.append("no store of _underlying in Vector.__init__")
-    if tracker_calls(prog, f, "unregister"):
-        pass
     ctx.ob("c.register-last", f, "register", not problems, "register(self, id(self._underlying)) runs once, after the store",
-           regs[0][0].ast if regs else f.node, message="; ".join(problems))
+           regs[0].node if regs else f.node, message="; ".join(problems))
 
 
 def _tracker(ctx) -> None:
